@@ -153,27 +153,56 @@ STATE_WF = ["allocated(self)", f"allocated({_SP})", f"allocated({_SF})",
             f"forall_int(lambda i: forall_int(lambda j: implies(i != j, {_SP}.keys()[i] != {_SP}.keys()[j]), 0, len({_SP}.keys())), 0, len({_SP}.keys()))",
             f"forall_int(lambda i: forall_int(lambda j: implies(i != j, {_SF}.keys()[i] != {_SF}.keys()[j]), 0, len({_SF}.keys())), 0, len({_SF}.keys()))",
             f"forall_int(lambda i: allocated({_SP}[{_SP}.keys()[i]]), 0, len({_SP}.keys()))"]
+# same_content(result, self): the value-level relation between a state and its copy
+SAME_CONTENT = [
+    "result.is_init == self.is_init",
+    # same keys in the same order
+    f"{_RP}.keys() == {_SP}.keys()", f"{_RF}.keys() == {_SF}.keys()",
+    # every bucket has as many members, and member by member the same fact
+    f"forall_int(lambda i: len({_BK.format(d=_RP)}) == len({_BK.format(d=_SP)}), 0, len({_SP}.keys()))",
+    f"forall_int(lambda i: forall_int(lambda j: "
+    f"{_BK.format(d=_RP)}[j].name == {_BK.format(d=_SP)}[j].name and {_BK.format(d=_RP)}[j].is_positive == {_BK.format(d=_SP)}[j].is_positive and "
+    f"{_BK.format(d=_RP)}[j].signature == {_BK.format(d=_SP)}[j].signature and {_BK.format(d=_RP)}[j].object_mapping == {_BK.format(d=_SP)}[j].object_mapping, "
+    f"0, len({_BK.format(d=_SP)})), 0, len({_SP}.keys()))",
+    # every fluent has the same name, parameters and value
+    f"forall_int(lambda i: {_RF}[{_RF}.keys()[i]].name == {_SF}[{_SF}.keys()[i]].name and "
+    f"{_RF}[{_RF}.keys()[i]].stored_value == {_SF}[{_SF}.keys()[i]].stored_value and {_RF}[{_RF}.keys()[i]].signature == {_SF}[{_SF}.keys()[i]].signature and "
+    f"{_RF}[{_RF}.keys()[i]].repeating_variables == {_SF}[{_SF}.keys()[i]].repeating_variables, 0, len({_SF}.keys()))",
+]
+
+
+def _h_same_content(interp, st, a):
+    import z3
+    from pyvc.core import Val
+    env = {"result": a[0], "self": a[1]}
+    return Val(z3.And(*[interp.truthy(interp.eval_spec(c, st, st.ghost.get("__old__"), env)) for c in SAME_CONTENT]), "bool")
+
+
+def _h_same_content_opaque(interp, st, a):
+    # for callers that only pass the relation on: an uninterpreted symbol (its definition is SAME_CONTENT, proved for State.copy here)
+    import z3
+    from pyvc.core import Val
+    return Val(z3.Function("same_content", z3.IntSort(), z3.IntSort(), z3.BoolSort())(a[0].t, a[1].t), "bool")
+
+
+HOOKS_EXPANDED = {"same_content": _h_same_content}
+HOOKS_OPAQUE = {"same_content": _h_same_content_opaque}
 CONTRACTS["models.pddl_state:State.copy"] = dict(
     prop="C14", params={"self": _ST}, returns=_ST,
     requires=STATE_WF,
     ensures=[
         # a new state object with new dictionaries
-        "fresh(result)", f"fresh({_RP})", f"fresh({_RF})", f"{_RP} != {_RF}", "result.is_init == self.is_init",
-        # same keys in the same order
-        f"{_RP}.keys() == {_SP}.keys()", f"{_RF}.keys() == {_SF}.keys()",
-        # every bucket is a new set holding new fact objects with the same content
-        f"forall_int(lambda i: fresh({_RP}[{_RP}.keys()[i]]) and len({_BK.format(d=_RP)}) == len({_BK.format(d=_SP)}), 0, len({_SP}.keys()))",
-        f"forall_int(lambda i: forall_int(lambda j: fresh({_BK.format(d=_RP)}[j]) and "
-        f"{_BK.format(d=_RP)}[j].name == {_BK.format(d=_SP)}[j].name and {_BK.format(d=_RP)}[j].is_positive == {_BK.format(d=_SP)}[j].is_positive and "
-        f"{_BK.format(d=_RP)}[j].signature == {_BK.format(d=_SP)}[j].signature and {_BK.format(d=_RP)}[j].object_mapping == {_BK.format(d=_SP)}[j].object_mapping, "
-        f"0, len({_BK.format(d=_SP)})), 0, len({_SP}.keys()))",
-        # every fluent is a new object with the same name, parameters and value
-        f"forall_int(lambda i: fresh({_RF}[{_RF}.keys()[i]]) and {_RF}[{_RF}.keys()[i]].name == {_SF}[{_SF}.keys()[i]].name and "
-        f"{_RF}[{_RF}.keys()[i]].stored_value == {_SF}[{_SF}.keys()[i]].stored_value and {_RF}[{_RF}.keys()[i]].signature == {_SF}[{_SF}.keys()[i]].signature and "
-        f"{_RF}[{_RF}.keys()[i]].repeating_variables == {_SF}[{_SF}.keys()[i]].repeating_variables, 0, len({_SF}.keys()))",
+        "fresh(result)", f"fresh({_RP})", f"fresh({_RF})", f"{_RP} != {_RF}",
+        # every bucket is a new set holding new fact objects; every fluent is a new object
+        f"forall_int(lambda i: fresh({_RP}[{_RP}.keys()[i]]), 0, len({_SP}.keys()))",
+        f"forall_int(lambda i: forall_int(lambda j: fresh({_BK.format(d=_RP)}[j]), 0, len({_BK.format(d=_SP)})), 0, len({_SP}.keys()))",
+        f"forall_int(lambda i: fresh({_RF}[{_RF}.keys()[i]]), 0, len({_SF}.keys()))",
         # buckets of different keys are different objects, fluents of different keys are different objects
         f"forall_int(lambda i: forall_int(lambda j: implies(i != j, {_RP}[{_RP}.keys()[i]] != {_RP}[{_RP}.keys()[j]]), 0, len({_SP}.keys())), 0, len({_SP}.keys()))",
         f"forall_int(lambda i: forall_int(lambda j: implies(i != j, {_RF}[{_RF}.keys()[i]] != {_RF}[{_RF}.keys()[j]]), 0, len({_SF}.keys())), 0, len({_SF}.keys()))",
-    ],
+        # ... carrying the same value (SAME_CONTENT, clause by clause, and as the named relation other contracts refer to)
+        "same_content(result, self)",
+    ] + SAME_CONTENT,
+    spec_hooks=HOOKS_EXPANDED,
     raises={}, modifies=[],
     calls={"GroundedPredicate.copy": "models.pddl_predicate:GroundedPredicate.copy", "PDDLFunction.copy": "models.pddl_function:PDDLFunction.copy"})
